@@ -34,6 +34,8 @@ def _items_of(x) -> Optional[List[Any]]:
         return list(x)
     if _isinstance(x, _str):
         return [ord(c) for c in x]
+    if _isinstance(x, (list, tuple)):
+        return list(x)
     return None
 
 
